@@ -680,9 +680,81 @@ class Canon:
         ast.fix_missing_locations(stmt)
 
 
+def _signatures(sm) -> Dict[str, Optional[List[List[str]]]]:
+    """callable name -> positional parameter names (without the receiver), None when definitions of that name disagree"""
+    sigs: Dict[str, Optional[List[str]]] = {}
+
+    def add(name, params):
+        if name in sigs and sigs[name] is None:
+            return
+        sigs.setdefault(name, [])
+        if params not in sigs[name]:
+            sigs[name].append(params)
+    for m in sm.modules.values():
+        for st in m.tree.body:
+            if isinstance(st, ast.FunctionDef) and not st.args.vararg and not st.args.kwarg:
+                add(st.name, [a.arg for a in st.args.posonlyargs + st.args.args])
+            elif isinstance(st, ast.ClassDef):
+                for f in st.body:
+                    if isinstance(f, ast.FunctionDef):
+                        if f.args.vararg or f.args.kwarg or any(isinstance(d, ast.Name) and d.id in ('property',) or isinstance(d, ast.Attribute) for d in f.decorator_list):
+                            if f.name != '__init__':
+                                sigs[f.name] = None
+                            continue
+                        static = any(isinstance(d, ast.Name) and d.id == 'staticmethod' for d in f.decorator_list)
+                        ps = [a.arg for a in f.args.posonlyargs + f.args.args][0 if static else 1:]
+                        if f.name == '__init__':
+                            continue
+                        add(f.name, ps)
+    return sigs
+
+
+class _KwToPos(ast.NodeTransformer):
+    """`f(a, name=b)` -> `f(a, b)` when the keywords continue the positional arguments in parameter order"""
+    def __init__(self, sigs):
+        self.sigs = sigs
+        self.n = 0
+
+    def visit_Call(self, node):
+        self.generic_visit(node)
+        if not node.keywords or any(k.arg is None for k in node.keywords) or any(isinstance(a, ast.Starred) for a in node.args):
+            return node
+        name = node.func.attr if isinstance(node.func, ast.Attribute) else node.func.id if isinstance(node.func, ast.Name) else None
+        defs = self.sigs.get(name) if name else None
+        if not defs:
+            return node
+        ps = {}
+        for k in node.keywords:
+            where = {d.index(k.arg) for d in defs if k.arg in d}
+            if len(where) != 1:
+                return node          # unknown keyword, or the definitions of this name disagree on its position
+            ps[k.arg] = next(iter(where))
+        if isinstance(node.func, ast.Attribute) and isinstance(node.func.value, ast.Call) and isinstance(node.func.value.func, ast.Name) and node.func.value.func.id == 'super':
+            return node
+        idx = sorted(((ps[k.arg], k) for k in node.keywords), key=lambda x: x[0])
+        p = len(node.args)
+        if [i for i, _ in idx] != list(range(p, p + len(idx))):
+            return node
+        node.args = list(node.args) + [k.value for _, k in idx]
+        node.keywords = []
+        self.n += 1
+        return node
+
+
 def canonicalise(sm) -> dict:
     canon = Canon()
     changed = set()
+    kw = _KwToPos(_signatures(sm))
+    for m in sm.modules.values():
+        if not (m.name.startswith('musicxml') or m.name == 'verysimpletree.tree'):
+            continue
+        before = kw.n
+        for q, node, cls, parent in module_function_quals(m.tree):
+            if parent is None:
+                kw.visit(node)
+        if kw.n != before:
+            changed.add(m.name)
+    canon.counts['K'] = kw.n
     for m in sm.modules.values():
         if not (m.name.startswith('musicxml') or m.name == 'verysimpletree.tree'):
             continue
